@@ -1,0 +1,20 @@
+//go:build verif
+
+package envelope
+
+// Exports for the verification harness (build tag verif). Add-only.
+
+// VerifBuildGrantEncContext exposes buildGrantEncContext.
+func VerifBuildGrantEncContext(envelopeID, context string, grantIndex int) string {
+	return buildGrantEncContext(envelopeID, context, grantIndex)
+}
+
+// VerifBuildKeyDerivationContext exposes buildKeyDerivationContext.
+func VerifBuildKeyDerivationContext(envelopeID, context string) string {
+	return buildKeyDerivationContext(envelopeID, context)
+}
+
+// VerifHashContext exposes hashContext.
+func VerifHashContext(context string) []byte {
+	return hashContext(context)
+}
